@@ -37,6 +37,62 @@ def concat_cases(c, d, n):
     c.corr("Cli.cread (F1 model of concatFileReader.Read) vs the real reader on real files, Read call by Read call", d)
 
 
+def pattern_cases(c, d, n):
+    """Correspondence of Cli/GlobModel.v with the real compilePattern / fileFilter through the verif-tagged test hook."""
+    os.makedirs(d, exist_ok=True)
+    rnd = random.Random(c.seed * 104729 + 23)
+    cin, cgo = os.path.join(d, "cases.in"), os.path.join(d, "cases.go.out")
+    hx = lambda s: s.encode("utf-8").hex() or "-"   # ASCII only: `?` matches one character in Go, one byte in the model
+    pieces = ["a", "b", "ab", "x", ".", ".js", ".css", "/", "/", "*", "*", "**", "**", "?", "src", "foo", "\\", "~", "+", "(", ")", "[", "]", "{", "}", "^", "$", "|", "-", "\n", " "]
+    def glob():
+        k = rnd.choice([1, 2, 3, 4, 5, 7])
+        g = "".join(rnd.choice(pieces) for _ in range(k))
+        if g.startswith("~"):
+            g = rnd.choice(["\\", "a"]) + g       # a leading ~ selects a regular expression: outside the model
+        return g
+    def path_for(g):
+        # a path that has a chance to match: literals kept, wildcards filled in
+        out = []
+        i = 0
+        while i < len(g):
+            ch = g[i]
+            if g.startswith("**", i):
+                out.append(rnd.choice(["", "a", "a/b", "x/y/z", "q.js"])); i += 2
+            elif ch == "*":
+                out.append(rnd.choice(["", "a", "ab", "x.y", "a/b"])); i += 1
+            elif ch == "?":
+                out.append(rnd.choice(["a", "", "/", "xy"])); i += 1
+            elif ch == "\\" and i == 0 and g.startswith("\\~"):
+                i += 1
+            else:
+                out.append(ch); i += 1
+        return "".join(out)
+    paths_pool = ["a", "ab", "a.js", "ab.js", "src/a.js", "src/foo/a.js", "src/foo/bar/a.css", "x/y", "", "a/b", ".js", "src/", "a\nb"]
+    kinds = {}
+    with open(cin, "w") as f:
+        for i in range(n):
+            if rnd.random() < 0.6:
+                g = glob()
+                ps = [path_for(g) for _ in range(3)] + [rnd.choice(paths_pool) for _ in range(3)]
+                f.write("glob\t%s\t%s\n" % (hx(g), ",".join(hx(p) for p in ps)))
+                kinds["glob"] = kinds.get("glob", 0) + 1
+            else:
+                ms = [rnd.choice(["*.js", "*.css", "a*", "*", "a?.js", "*.*"]) for _ in range(rnd.choice([0, 0, 1, 2]))]
+                fs = [rnd.choice("+-") + rnd.choice(["src/*/**", "src/foo/**", "**/a.js", "src/**", "*.css", "**", "src/*", "**/foo/**", "src/?oo/*"]) for _ in range(rnd.choice([0, 1, 2, 3]))]
+                ps = [rnd.choice(["src/a.js", "src/foo/a.js", "src/foo/b.css", "src/bar/a.js", "a.js", "b.css", "src/foo/bar/a.js", "src/boo/a.js", "ab.js", "src/a.css"]) for _ in range(6)]
+                f.write("filter\t%s\t%s\t%s\n" % (",".join(hx(m) for m in ms) or "-", ",".join(hx(x) for x in fs) or "-", ",".join(hx(p) for p in ps)))
+                kinds["filter"] = kinds.get("filter", 0) + 1
+    env = dict(vcheck.GOENV, VERIF_PATTERN_IN=cin, VERIF_PATTERN_OUT=cgo)
+    p = subprocess.run("go test -tags verif -vet=off -count=1 -run TestVerifPattern ./cmd/minify", shell=True, cwd=vcheck.REPO, env=env,
+                       stdout=subprocess.PIPE, stderr=subprocess.STDOUT, text=True, timeout=900)
+    if p.returncode != 0 or not os.path.exists(cgo):
+        c.broken.append("harness: verif hook TestVerifPattern failed: " + p.stdout[-1200:])
+        return
+    c.cov["tools"].append({"tool": "hook:TestVerifPattern", "evaluations": n, "histograms": {"pattern": kinds}})
+    c.cov["evaluations"] += n
+    c.corr("Cli.compile_src / glob_matches / file_filter (glob patterns of --match / --include / --exclude) vs the real compilePattern (source of the regular expression it builds, and what Go's regexp matches) and fileFilter", d)
+
+
 def run(c):
     c.build(['clifs'])
     c.props()
@@ -53,6 +109,7 @@ def run(c):
             c.broken.append("corr:Cli.ops_of — " + p)
         c.corr("Cli.ops_of (operation list per task shape) vs strace skeleton of the real cmd/minify, per destination", d)
     concat_cases(c, os.path.join(c.outdir, "concat"), 600 if c.tier == "quick" else 6000)
+    pattern_cases(c, os.path.join(c.outdir, "pattern"), 3000 if c.tier == "quick" else 30000)
     # search: generated trees x invocation shapes against the reference of the documented rules
     n = 4000 if c.tier == "quick" else 40000
     c.tool("clifs", ["-mode", "fs", "-seed", c.seed, "-tier", c.tier, "-n", n], sub="fs")
